@@ -49,6 +49,9 @@ pub mod h_iter2 {
 pub mod h_clone {
     include!(concat!(env!("CHUMSKY_VERIF_DIR"), "/h_clone.rs"));
 }
+pub mod h_io {
+    include!(concat!(env!("CHUMSKY_VERIF_DIR"), "/h_io.rs"));
+}
 pub mod h_err {
     include!(concat!(env!("CHUMSKY_VERIF_DIR"), "/h_err.rs"));
 }
@@ -69,6 +72,7 @@ pub fn register_all(r: &mut Vec<(&'static str, fn())>) {
     h_inputref::register(r);
     h_top2::register(r);
     h_err::register(r);
+    h_io::register(r);
     h_clone::register(r);
     h_iter2::register(r);
 }
